@@ -50,9 +50,16 @@ var ctors = []func() *expr.Expression{
 	},
 	func() *expr.Expression { return expr.Eq(expr.Lit("col name"), expr.Lit(1.25)) },
 	func() *expr.Expression { return expr.NOT(expr.Lit("bare")) },
+	func() *expr.Expression {
+		// a list with repeats, out of order, in a slice with spare capacity
+		s := make([]*expr.Expression, 5, 16)
+		s[0], s[1], s[2], s[3], s[4] = expr.Lit("z"), expr.Lit("a"), expr.Lit("z"), expr.Lit(2), expr.Lit("a")
+		return expr.AND(expr.IN("k", expr.LIST(s)), expr.IN("k", expr.LIST(s)))
+	},
+	func() *expr.Expression { return expr.Rang("r", 9, 1, true) },
 }
 
-const numCtors = 18
+const numCtors = 20
 
 func init() {
 	if len(ctors) != numCtors {
@@ -188,7 +195,12 @@ func wrapFN(fn driver.RenderFN) driver.RenderFN {
 
 // doCall performs the library call of op on subject e and returns the canonical
 // result. canon wraps result canonicalisation (Quiet inside a simulated run).
-func doCall(op *Op, e *expr.Expression, canon func(func() string) string) string {
+//
+// The second result, when non-nil, recomputes the canonical form from the RAW
+// values the call returned (tree, parameter slice, byte slice), which the caller
+// keeps: oracle O6 calls it after everything else has run — a returned value
+// that later changes was aliasing state the library went on using.
+func doCall(op *Op, e *expr.Expression, canon func(func() string) string) (string, func() string) {
 	switch op.Kind {
 	case KParse:
 		var x *expr.Expression
@@ -198,7 +210,7 @@ func doCall(op *Op, e *expr.Expression, canon func(func() string) string) string
 		} else {
 			x, err = lucene.Parse(op.Query)
 		}
-		return canon(func() string {
+		f := func() string {
 			if err != nil {
 				if x != nil {
 					return errText(err) + "|nonnil:" + canonFull(x)
@@ -206,7 +218,8 @@ func doCall(op *Op, e *expr.Expression, canon func(func() string) string) string
 				return errText(err)
 			}
 			return canonFull(x)
-		})
+		}
+		return canon(f), f
 	case KToPG:
 		var s string
 		var err error
@@ -215,7 +228,7 @@ func doCall(op *Op, e *expr.Expression, canon func(func() string) string) string
 		} else {
 			s, err = lucene.ToPostgres(op.Query)
 		}
-		return strconv.Quote(s) + "|" + errText(err)
+		return strconv.Quote(s) + "|" + errText(err), nil
 	case KToParam:
 		var s string
 		var ps []any
@@ -225,51 +238,60 @@ func doCall(op *Op, e *expr.Expression, canon func(func() string) string) string
 		} else {
 			s, ps, err = lucene.ToParameterizedPostgres(op.Query)
 		}
-		return canon(func() string { return strconv.Quote(s) + "|" + canonParams(ps) + "|" + errText(err) })
+		f := func() string { return strconv.Quote(s) + "|" + canonParams(ps) + "|" + errText(err) }
+		return canon(f), f
 	case KRender:
 		d := sharedDrv
 		if op.Fresh || !sharedDrvOK {
 			d = driver.NewPostgresDriver()
 		}
 		s, err := d.Render(e)
-		return strconv.Quote(s) + "|" + errText(err)
+		return strconv.Quote(s) + "|" + errText(err), nil
 	case KRenderParam:
 		d := sharedDrv
 		if op.Fresh || !sharedDrvOK {
 			d = driver.NewPostgresDriver()
 		}
 		s, ps, err := d.RenderParam(e)
-		return canon(func() string { return strconv.Quote(s) + "|" + canonParams(ps) + "|" + errText(err) })
+		f := func() string { return strconv.Quote(s) + "|" + canonParams(ps) + "|" + errText(err) }
+		return canon(f), f
 	case KCRender:
 		s, err := custom.Render(e)
-		return strconv.Quote(s) + "|" + errText(err)
+		return strconv.Quote(s) + "|" + errText(err), nil
 	case KCRenderParam:
 		s, ps, err := custom.RenderParam(e)
-		return canon(func() string { return strconv.Quote(s) + "|" + canonParams(ps) + "|" + errText(err) })
+		f := func() string { return strconv.Quote(s) + "|" + canonParams(ps) + "|" + errText(err) }
+		return canon(f), f
 	case KString:
-		return strconv.Quote(e.String())
+		return strconv.Quote(e.String()), nil
 	case KGoString:
-		return strconv.Quote(maskAddrs(fmt.Sprintf("%#v", e)))
+		return strconv.Quote(maskAddrs(fmt.Sprintf("%#v", e))), nil
 	case KSprint:
-		return strconv.Quote(maskAddrs(fmt.Sprintf("%s|%v", e, e)))
+		return strconv.Quote(maskAddrs(fmt.Sprintf("%s|%v", e, e))), nil
 	case KMarshal:
 		b, err := json.Marshal(e)
-		return strconv.Quote(string(b)) + "|" + errText(err)
+		f := func() string { return strconv.Quote(string(b)) + "|" + errText(err) }
+		return f(), f
+	case KMarshalDir:
+		b, err := e.MarshalJSON() // a public method: callers may call it and keep the bytes
+		f := func() string { return strconv.Quote(string(b)) + "|" + errText(err) }
+		return f(), f
 	case KValidate:
 		var in any = e
 		if e == nil {
 			in = nil
 		}
-		return errText(expr.Validate(in))
+		return errText(expr.Validate(in)), nil
 	case KUnmarshal:
-		var x expr.Expression
-		err := json.Unmarshal([]byte(op.Query), &x)
-		return canon(func() string {
+		x := new(expr.Expression)
+		err := json.Unmarshal([]byte(op.Query), x)
+		f := func() string {
 			if err != nil {
 				return errText(err)
 			}
-			return canonFull(&x)
-		})
+			return canonFull(x)
+		}
+		return canon(f), f
 	case KNewDriver:
 		d := driver.NewPostgresDriver()
 		// and the README pattern: a caller ranging over the exported table itself
@@ -288,7 +310,7 @@ func doCall(op *Op, e *expr.Expression, canon func(func() string) string) string
 			sb.WriteByte(' ')
 			sb.WriteString(strconv.Itoa(k))
 		}
-		return sb.String()
+		return sb.String(), nil
 	}
-	return "unknown-op"
+	return "unknown-op", nil
 }
